@@ -154,8 +154,6 @@ func layoutOf(t types.Type) *Layout {
 	case isNamed(t, "sync", "Once"):
 		add(".done", BoolS, LGhost, t)
 		return l
-	case isNamed(t, "sync", "Pool"):
-		return l
 	case isNamed(t, "sync", "Map"):
 		add(".m", IntS, LRef, t)
 		return l
@@ -180,6 +178,8 @@ func layoutOf(t types.Type) *Layout {
 			add("", IntS, LRef, t)
 		case u.Kind() == types.UntypedNil:
 			add("", IntS, LRef, t)
+		case u.Kind() == types.Invalid:
+			// unused component of a range/next tuple
 		default:
 			panic(unsupported("basic type " + u.String()))
 		}
@@ -262,6 +262,10 @@ type Loc struct {
 	Off   int        // leaf offset within the root layout
 	T     types.Type // pointee type
 	Idx   []*Term    // pending array indices for lifted leaves (outermost first)
+	// dual addressing for pointers that may point either to a heap object or to a slice element:
+	// when Cond holds the location is Alt, otherwise this one
+	Alt  *Loc
+	Cond *Term
 }
 
 // Val is a symbolic value: flat leaves following layoutOf(T).
@@ -284,6 +288,21 @@ func (v Val) Term() *Term {
 
 func zeroLeaf(lf Leaf) *Term {
 	s := lf.S
+	if lf.T != nil && isNamed(lf.T, "time", "Time") {
+		// the zero time.Time is the distinguished minimum instant (see specs.go)
+		z := timeZero
+		for s.K == KArray {
+			s = s.B
+		}
+		var wrap func(s *Sort) *Term
+		wrap = func(s *Sort) *Term {
+			if s.K == KArray {
+				return ConstArr(s, wrap(s.B))
+			}
+			return z
+		}
+		return wrap(lf.S)
+	}
 	return zeroOfSort(s)
 }
 
@@ -335,6 +354,10 @@ func namedVal(t types.Type, name string) Val {
 }
 
 func iteVal(c *Term, a, b Val) Val {
+	if (a.Loc != nil || b.Loc != nil) && len(a.L) == 1 && len(b.L) == 1 {
+		// encoded element pointers are ordinary references
+		return Val{T: a.T, L: []*Term{Ite(c, a.L[0], b.L[0])}}
+	}
 	if a.Loc != nil || b.Loc != nil {
 		if a.Loc != nil && b.Loc != nil {
 			if l := iteLoc(c, a.Loc, b.Loc); l != nil {
